@@ -165,6 +165,9 @@ class Host(object):
                     files = [f for j, f in enumerate(files) if j != idx]
                     self.res.stats["fault:peer_kill"] += 1
             data = bytes(img)
+            if desc.get("tracks40"):
+                data += b"\xFF" * (5 * 18 * 256)       # a 40-track image from an emulator: the first 35 tracks are the same disk
+                self.res.stats["probe:peer_disk_image_with_40_tracks"] += 1
             self.model[path] = {"kind": "dsk", "files": files, "writer": "peer"}
         elif state in ("raw", "arbitrary"):
             data = no_markers(Rng(desc.get("seed", 0)).bytes(desc.get("len", 300)))
@@ -228,9 +231,9 @@ class Host(object):
         if m["kind"] == "cas":
             return "cas", RT.read(data, strict=False)
         if m["kind"] == "dsk":
-            if len(data) != RD.IMAGE_SIZE:
+            if len(data) < RD.IMAGE_SIZE or (len(data) != RD.IMAGE_SIZE and m.get("writer") != "peer"):
                 raise RD.DiskError("image is %d bytes" % len(data))
-            return "dsk", RD.list_files(data)
+            return "dsk", RD.list_files(data[:RD.IMAGE_SIZE])
         return m["kind"], []
 
     def tool_list(self, path):
@@ -427,11 +430,15 @@ class Host(object):
             args += ["--name", op["name"]]
         spelled = {}
         op = dict(op)
+        for link, target in sorted(op.get("links", {}).items()):
+            w.symlink(link, target)                          # symbolic links to directories in the working directory
+            w.put(target + "/.keep", b"", who="SETUP")
+            res.stats["fault:symlinked_directory_in_target_path"] += 1
         for kind in KINDS:
             if op.get(kind):
-                args += ["--to_" + kind, op[kind]]          # as the user spelled it (./x, ~/x)
+                args += ["--to_" + kind, op[kind]]          # as the user spelled it (./x, ~/x, link/../x)
                 spelled[kind] = op[kind]
-                op[kind] = posixpath.normpath(op[kind])      # the key under which the simulated host stores it
+                op[kind] = w.resolve(op[kind])               # the file the kernel resolves that spelling to
         if op.get("append"):
             args.append("--append")
         if op.get("print"):
@@ -497,7 +504,7 @@ class Host(object):
         named = [op[kind] for kind in KINDS if op.get(kind)]
         shared = {p for p in named if named.count(p) > 1}
         for path in sorted(shared):
-            self.judge_shared_target(r, op, path, before[path], ref, new_file, k)
+            self.judge_shared_target(r, op, path, before[path], ref, None if unstorable else new_file, k, unstorable)
         # the tool stops at the first container switch when there is no name
         stop = False
         for kind in KINDS:
@@ -527,7 +534,7 @@ class Host(object):
                 self.check_c11(path, kind, new_file, ref, lines, k)
         return r, ref
 
-    def judge_shared_target(self, r, op, path, before, ref, new_file, k):
+    def judge_shared_target(self, r, op, path, before, ref, new_file, k, unstorable=False):
         """One host file named for several switches: apply the save rules switch by switch (bin, cas, dsk) to a scratch
         copy of the model; at most the saves that the rules allow may have happened, in that order."""
         res = self.res
@@ -541,7 +548,7 @@ class Host(object):
             if kind == "bin":
                 files = [{"name": "", "ext": "", "ftype": 2, "dtype": 0, "load": 0, "exec": 0, "data": ref["image"]}]
             elif new_file is None:
-                stop = True
+                stop = not unstorable       # no name: the tool stops; an unstorable name: this save fails, the next switch is tried
                 continue
             else:
                 files = [new_file]
@@ -812,8 +819,8 @@ class Host(object):
 
     def op_list(self, op, k):
         res = self.res
-        path = op["path"]
-        r = self.w.invoke("file_util", [path, "--list"])
+        r = self.w.invoke("file_util", [op["path"], "--list"])      # as spelled
+        path = self.w.resolve(op["path"])                            # the file that spelling resolves to
         res.stats["cli:file_util"] += 1
         m = self.model.get(path)
         if m is None or m["kind"] not in ("cas", "dsk"):
